@@ -83,7 +83,8 @@ def scenarios(tier: str) -> List[Dict[str, Any]]:
         sc = dict(sc)
         sc.update(charge=ch, adducts=ad, isotope=iso, mono=mono, ion=ion, precision=precision, loss=loss,
                   charge_in_annotation=in_ann and ch is not None and ch != 0, adducts_in_annotation=in_ann and ad is not None,
-                  as_str=((k // 2) % 3 == 1))      # every third pair of scenarios hands the peptide over as a ProForma string
+                  as_str=((k // 2) % 3 == 1),      # every third pair of scenarios hands the peptide over as a ProForma string
+                  prior=((k // 2) % 3 == 2))       # every third pair: the same object has already answered another query
         out.append(sc)
 
     # (a) unmodified x every charge/adduct configuration x mono/avg
@@ -149,6 +150,12 @@ def _call_library(sc, ann, loss, mass, mz):
         kw["charge_adducts"] = sc["adducts"]
     # the same peptide object for both calls (or its ProForma string, the form most callers use)
     arg = ann.serialize() if sc.get("as_str") else ann
+    if sc.get("prior"):
+        # an earlier query on the same object (another ion type, the other mass mode, no charge): the sum of parts is claimed
+        # for every call, whatever the object was asked before
+        other = "n" if sc["ion"] == "p" else "p"
+        mass(arg, ion_type=other, monoisotopic=not sc["mono"])
+        mz(arg, ion_type="b" if sc["ion"] != "b" else "y", charge=1, monoisotopic=sc["mono"])
     m = mass(arg, precision=sc["precision"], **kw)
     z = mz(arg, precision=sc["precision"], **kw)
     return m, z
@@ -232,7 +239,7 @@ def check_scenario(sc: Dict[str, Any], sym_tables: bool, excl=()) -> Obligation:
 
 
 def scenario_id(sc) -> str:
-    parts = [sc["seq"], "mono" if sc["mono"] else "avg", f"ion={sc['ion']}", f"z={sc['charge']}", f"iso={sc['isotope']}"] + (["str"] if sc.get("as_str") else [])
+    parts = [sc["seq"], "mono" if sc["mono"] else "avg", f"ion={sc['ion']}", f"z={sc['charge']}", f"iso={sc['isotope']}"] + (["str"] if sc.get("as_str") else []) + (["prior"] if sc.get("prior") else [])
     if sc["adducts"]:
         parts.append("ad=" + sc["adducts"])
     if sc["precision"] is not None:
